@@ -367,7 +367,10 @@ class World:
             tid = None
             if "upsert" in item:
                 tid = self.resolve(b, item["upsert"])
-                if tid is None or tid in used:
+                if tid is not None and tid in used and item.get("again"):
+                    # the same live id a second time in one list: legal, the later entry wins
+                    self.probes["bulk_same_id_twice"] += 1
+                elif tid is None or tid in used:
                     tid = None
                     if item.get("strict"):
                         continue
